@@ -277,6 +277,7 @@ set_option maxRecDepth 100000 in
 example : structFieldSummary (C03.parseString G ids (txt "struct S { 99999999999: i32 a }")) = [(0, [1], 0, [])] := by decide
 
 /- regression item for `empty-document` (fix 809bbec): the empty input is an empty AST -/
+set_option maxRecDepth 100000 in
 example : defCount (C03.parseString G ids []) = some 0 := by decide
 set_option maxRecDepth 100000 in
 example : defCount (C03.parseString G ids (txt " // c\n")) = some 0 := by decide
